@@ -243,6 +243,12 @@ func ReadFromSSAWithOptions(i io.Reader, opts SSAOptions) (o *Subtitles, err err
 		}
 	}
 
+	// Check scanner error (read failure or line too long)
+	if err = scanner.Err(); err != nil {
+		err = fmt.Errorf("astisub: scanning failed: %w", err)
+		return
+	}
+
 	// Set metadata
 	o.Metadata = si.metadata()
 
